@@ -595,8 +595,13 @@ Definition doc_refs (fs : files) : bool :=
   && forallb (fun c => mem_str c (defined_clusters fs)) (adv_clusters (fs_route fs))
   && forallb (fun c => mem_str c (defined_clusters fs) || seqb c ADVANCED_MODE)
              (flat_map (fun e => map (fun r => odef [] (br_cluster r)) (snd e)) (olist (rf_basic (fs_route fs)))).
+(* vip_rule.data names products too; BFE does not cross-check them (C13 finding 1) *)
+Definition vip_products_defined (fs : files) : bool :=
+  forallb (fun p => mem_str p (defined_products fs)) (map fst (vf_vips (fs_vip fs))).
+Definition closed_full (fs : files) : bool := closed fs && vip_products_defined fs.
 Definition documented (fs : files) : bool :=
-  doc_host (fs_host fs) && doc_vip (fs_vip fs) && doc_route (fs_route fs) && doc_cluster (fs_cluster fs) && doc_refs fs.
+  doc_host (fs_host fs) && doc_vip (fs_vip fs) && doc_route (fs_route fs) && doc_cluster (fs_cluster fs) && doc_refs fs
+  && vip_products_defined fs.
 
 (* gslb.data / cluster_table.data: documented format and what an accepted file must guarantee *)
 Definition doc_gslb (f : gslb_file) : bool :=
